@@ -116,6 +116,11 @@ func tryBatch(t *testing.T, root string, fulls []string, fl flags) []obs {
 		}
 		kind, data := kindOf(local)
 		os2[i] = obs{root: root, path: full, fl: fl, kind: kind, fetch: "GOther", get: "GNone", verify: "GNone", put: "PRejected"}
+		if filestore.IsURL(full) && strings.HasPrefix(full, srvURL+"/") { // exactly as in try: a genuine URL of the harness' server
+			if b, ok := served[strings.TrimPrefix(full, srvURL)]; ok {
+				data, os2[i].fetch = b, "GSame"
+			}
+		}
 		if data == nil {
 			counter++
 			data = []byte(fmt.Sprintf("absent-%d", counter))
